@@ -204,6 +204,10 @@ static void DecodeCondAbs(Word Index) {
         ;
     else if (!DecodeCondition(ArgStr[1].str.p_str, &Cond)) {
         WrStrErrorPos(ErrNum_UndefCond, &ArgStr[1]);
+    }
+    /* BCFA/BSFA with condition 3 do not exist: the opcodes are BXA/BSXA */
+    else if ((Cond == 3) && (Index & 0x80)) {
+        WrStrErrorPos(ErrNum_UndefCond, &ArgStr[1]);
     } else {
         IndFlag = *ArgStr[2].str.p_str == '*';
         Address = EvalStrIntExpressionOffs(&ArgStr[2], IndFlag, UInt13, &OK);
@@ -228,6 +232,10 @@ static void DecodeCondRel(Word Index) {
     if (!ChkArgCnt(2, 2))
         ;
     else if (!DecodeCondition(ArgStr[1].str.p_str, &Cond)) {
+        WrStrErrorPos(ErrNum_UndefCond, &ArgStr[1]);
+    }
+    /* BCFR/BSFR with condition 3 do not exist: the opcodes are ZBRR/ZBSR */
+    else if ((Cond == 3) && (Index & 0x80)) {
         WrStrErrorPos(ErrNum_UndefCond, &ArgStr[1]);
     } else {
         BAsmCode[0] = Index | Cond;
